@@ -15,8 +15,9 @@ EXTENDS Props, Blame, Json, IOUtils
 VARIABLE l,         \* position of the next event to be explained
          sv,        \* per stream-attached actor: stream items taken in a row although its mailbox was not empty
          pend,      \* per client: the operation whose call has begun but whose first effect has not been placed yet
-         rel        \* actors that were registered children of a parent that has terminated (released by it)
-tvars == <<vars, l, sv, pend, rel>>
+         rel,       \* actors that were registered children of a parent that has terminated (released by it)
+         own        \* actors that were spawned with an OwningAddr
+tvars == <<vars, l, sv, pend, rel, own>>
 NoOp == [op |-> "none"]
 
 Rec == ndJsonDeserialize(IOEnv.TRACE)
@@ -30,7 +31,9 @@ GX(id, extra, c) == IF c THEN TRUE ELSE (TLCSet(2, TLCGet(2) \cup {<<l, id, extr
 \* ... and about an actor whose parent (it was a registered child) has terminated also concerns C16 ("children are then
 \* released, so children without other strong handles finish their accepted messages and stop gracefully")
 ReleasedChild(a) == a \in rel
+\* ... and about an actor that was spawned owning C17 ("otherwise an OwningAddr behaves as a strong handle")
 SX(a) == (IF a \in Actor /\ act[a].stream THEN {"C13"} ELSE {}) \cup (IF a \in Actor /\ ReleasedChild(a) THEN {"C16"} ELSE {})
+         \cup (IF a \in own THEN {"C17"} ELSE {})
 IsEvent(e) == l <= Len(Rec) /\ Rec[l].ev = e /\ l' = l + 1
 E == Rec[l]
 
@@ -57,7 +60,7 @@ IdleReason(prefix, a) ==
   ELSE prefix \o "closed"
 HeldAsChild(a) == \E p \in Actor : ~Terminated(p) /\ \E i \in 1..Len(act[p].kids) : act[p].kids[i].a = a
 
-TInit == EmptyInit /\ l = 1 /\ sv = [a \in Actor |-> <<0, 0, 0>>] /\ pend = [c \in Client |-> NoOp] /\ rel = {} /\ TLCSet(2, {}) /\ TLCSet(3, 1)
+TInit == EmptyInit /\ l = 1 /\ sv = [a \in Actor |-> <<0, 0, 0>>] /\ pend = [c \in Client |-> NoOp] /\ rel = {} /\ own = {} /\ TLCSet(2, {}) /\ TLCSet(3, 1)
 
 -----------------------------------------------------------------------------
 T_Reset == /\ IsEvent("reset")
@@ -439,7 +442,8 @@ C13_FairSelect == \A a \in Actor : sv[a][1] <= FairBound /\ sv[a][2] <= FairBoun
 C10_TicksAfterStreamEnd == \A a \in Actor : sv[a][3] <= FairBound - 2
 RelNext == rel' = IF l' > l /\ E.ev = "reset" THEN {}
                   ELSE rel \cup UNION {{act[p].kids[i].a : i \in 1..Len(act[p].kids)} : p \in {q \in Actor : act[q].kids # <<>> /\ act'[q].kids = <<>>}}
-TSpec == TInit /\ [][TNext /\ SvNext /\ RelNext]_tvars
+OwnNext == own' = IF l' > l /\ E.ev = "reset" THEN {} ELSE own \cup {a \in Actor : act[a].jh # "held" /\ act'[a].jh = "held"}
+TSpec == TInit /\ [][TNext /\ SvNext /\ RelNext /\ OwnNext]_tvars
 
 Track == TLCSet(3, IF l > TLCGet(3) THEN l ELSE TLCGet(3))
 
